@@ -175,7 +175,41 @@ def do_replay(pid, path):
 
 
 # ------------------------------------------------------------------------ main --------------
+def self_check():
+    """MANIFEST.setup_cmd: nothing is built; verify the tools and the encoding cross-check."""
+    ok = True
+    try:
+        import z3
+        print('z3', z3.get_version_string())
+    except Exception as e:
+        print('CHECKER-ERROR z3 python API missing: %r' % e)
+        ok = False
+    print('cvc5', 'present' if os.path.exists('/usr/bin/cvc5') else 'absent (z3 only)')
+    if not os.path.exists(BOUNDED_PY):
+        print('CHECKER-ERROR %s missing' % BOUNDED_PY)
+        ok = False
+    if not os.path.isdir(os.path.join(REPO, 'mistletoe')):
+        print('CHECKER-ERROR %s/mistletoe missing' % REPO)
+        ok = False
+    try:
+        from vlib import crosscheck
+        n, bad = crosscheck.run()
+        print('encoding cross-check against CPython: %d cases, %d disagreements' % (n, len(bad)))
+        if bad:
+            print('CHECKER-ERROR encoding disagrees with CPython: %r' % (bad[:3],))
+            ok = False
+        from contracts import registry
+        m = registry.model()
+        print('contracts loaded: %d (%d trusted/protocol)' % (len(m.contracts), sum(1 for c in m.contracts.values() if c.trusted)))
+    except Exception:
+        print('CHECKER-ERROR self-check crashed: %s' % traceback.format_exc()[-600:])
+        ok = False
+    return 0 if ok else 3
+
+
 def main():
+    if len(sys.argv) > 1 and sys.argv[1] == '--self-check':
+        return self_check()
     ap = argparse.ArgumentParser()
     ap.add_argument('prop')
     ap.add_argument('--tier', default=None)
